@@ -67,3 +67,31 @@ def _site(log):
         if line.startswith("--> ") and "/repo/" in line:
             return line[4:].split(":")[0].replace("/repo/", "")
     return "unknown-site"
+
+
+def valgrind(ctx, res, prop, invocations, timeout=300):
+    """Run CLI invocations (args, stdin bytes, cwd) of the debug binary under valgrind memcheck.
+    Invalid accesses / definite leaks are violations of `prop`; other failures are inconclusive."""
+    import shutil
+    vg = shutil.which("valgrind")
+    if not vg:
+        res.inconclusive["valgrind not available"] = 1
+        return
+    exe = common.cli_bin(ctx)
+    wrapper = [vg, "-q", "--error-exitcode=97", "--leak-check=full", "--errors-for-leak-kinds=definite",
+               "--show-leak-kinds=definite"]
+
+    def one(inv):
+        args, stdin, cwd = inv
+        return inv, common.lace(ctx, args, stdin=stdin, cwd=cwd, timeout=timeout, wrapper=wrapper)
+    n = 0
+    for (args, stdin, cwd), r in common.pmap(one, invocations, workers=12):
+        n += 1
+        res.evaluations += 1
+        res.cls("valgrind_runs")
+        text = r.err.decode("utf-8", "replace")
+        if r.rc == 97 or "Invalid read" in text or "Invalid write" in text or "definitely lost" in text:
+            first = next((l for l in text.splitlines() if l.startswith("==") and ("Invalid" in l or "lost" in l or "uninitialised" in l)), "memcheck report")
+            res.violate("%s/valgrind/%s" % (prop, first.split("== ")[-1][:40].replace(" ", "-")),
+                        "memcheck: %s" % first, {"argv": args, "stderr_tail": text[-2500:]})
+    res.extra["valgrind"] = {"invocations": n}
